@@ -150,22 +150,23 @@ def rule_merge(ctx: Ctx, repo: Repo, tier: str) -> None:
     for combo in combos:
         perms = set(itertools.permutations(range(len(combo))))
         for m in ((0, 1, 2, 3, 4) if tier == "thorough" else (0, 1, 2, 3)):
-            keys = set()
-            for perm in sorted(perms):
-                tds = tuple(IM.td(i, combo[j]) for i, j in enumerate(perm))
-                res = IM.merge_result(repo, tds, m)
-                n += 1
-                lab = f"merge({[combo[j] for j in perm]}, limit {m})"
-                if isinstance(res, (U,)) or (isinstance(res, R) and res.kind == "raises"):
-                    ctx.violate("R-C04.3", w, f"{lab}: {res}", "merging TypedDicts raises / is undefined for this shape")
-                    continue
-                types, req, opt = IM.merge_spec(tds)
-                missing = _uncovered(res, types)
-                ctx.check(not missing, "R-C04.3", w, "every value type of every key reaches the merged field (or the Dict fallback)",
-                          construct=f"{[combo[j] for j in sorted(perm)]} limit {m}: dropped {missing}", scenario=lab)
-                keys.add(repr(_merge_key(res, perm)))
-            ctx.check(len(keys) <= 1, "R-C04.4", w, "merged TypedDict independent of the order of the inputs",
-                      construct=f"{list(combo)} limit {m}: {len(keys)} different results")
+            for same in ((False, True) if len(combo) > 1 else (False,)):
+                keys = set()
+                for perm in sorted(perms):
+                    tds = tuple(IM.td(i, combo[j], same) for i, j in enumerate(perm))
+                    res = IM.merge_result(repo, tds, m)
+                    n += 1
+                    lab = f"merge({[combo[j] for j in perm]}, limit {m}{', one value type per key' if same else ''})"
+                    if isinstance(res, (U,)) or (isinstance(res, R) and res.kind == "raises"):
+                        ctx.violate("R-C04.3", w, f"{lab}: {res}", "merging TypedDicts raises / is undefined for this shape")
+                        continue
+                    types, req, opt = IM.merge_spec(tds)
+                    missing = _uncovered(res, types)
+                    ctx.check(not missing, "R-C04.3", w, "every value type of every key reaches the merged field (or the Dict fallback)",
+                              construct=f"{[combo[j] for j in sorted(perm)]} limit {m}: dropped {missing}", scenario=lab)
+                    keys.add(repr(_merge_key(res, perm)))
+                ctx.check(len(keys) <= 1, "R-C04.4", w, "merged TypedDict independent of the order of the inputs",
+                          construct=f"{list(combo)} limit {m}{' (one value type per key)' if same else ''}: {len(keys)} different results")
     ctx.floor("R-C04.3", "shrink_typed_dict_types scenarios", n, 1000)
 
 
